@@ -660,7 +660,9 @@ def random_model_script(rng, **knobs):
     info: valid, model, components, variables, units, resets, importsources (slot lists), parent {component:
     parent slot}, var_owner {variable: component}, names {slot: name}, units_names (units added to the model),
     imported (slots that are imports), equivalences [(v1, v2)], var_units {variable: units name or None},
-    nslots (first unused slot), knobs.  See DEFAULT_KNOBS for the knobs."""
+    ids {slot: id given with setid}, urls {import source: url}, shared (import sources used more than once),
+    connection_ids {(component, component): id}, nslots (first unused slot), knobs.
+    See DEFAULT_KNOBS for the knobs.  With valid=True the model validates with 0 issues (measured: 100% of 2900)."""
     return _Gen(rng, knobs).build()
 
 
